@@ -35,11 +35,13 @@ def _models(repo):
     return out, specs
 
 
-def _lift(repo, cls, meth, params):
+def _lift(repo, cls, meth, params, yb=None, y=None):
     fn = repo.method(cls, meth)
     lf = Lifter(repo, cls)
-    env = {'parameters': Tup(params), 'model_output': SP.yb,
-           'observations': SP.y, 'model_sensitivities': SP.M}
+    env = {'parameters': Tup(params),
+           'model_output': SP.yb if yb is None else yb,
+           'observations': SP.y if y is None else y,
+           'model_sensitivities': SP.M}
     val = lf.run(fn, env)
     return fn, lf, val
 
@@ -182,9 +184,81 @@ def r04_terms(ctx, repo):
                               '%s' % (label, _res(g - w)), engine=eng)
             else:
                 ctx.error('R04.4', '%s %s: residual undecided' % (c3, label))
+        # The Gaussian family is defined for outputs and observations on the
+        # whole real line: the three kernels must also agree with each other
+        # where the model output is negative (the documented density is only
+        # compared on the positive branch above).
+        if sp_ is None or sp_['family'] == 'gaussian':
+            _negative_branch(ctx, repo, cls, params, eng)
     ctx.floor('R04.2', 8)
     ctx.floor('R04.3', 8)
     ctx.floor('R04.4', 9)
+
+
+def _negative_branch(ctx, repo, cls, params, eng):
+    ybn = sp.Symbol('ybn', positive=True)
+    yr = sp.Symbol('yr', real=True)
+    try:
+        f_tot, _, tot = _lift(repo, cls, KERNELS[0], params, -ybn, yr)
+        f_pw, _, pw = _lift(repo, cls, KERNELS[1], params, -ybn, yr)
+        f_se, _, se = _lift(repo, cls, KERNELS[2], params, -ybn, yr)
+        l = summand(tot)
+    except Unsupported as e:
+        ctx.note('R04.2', '%s: negative-output branch not lifted (%s)'
+                 % (cls, e))
+        return
+    tag = ' [negative output]'
+    c = '%s.%s' % (cls, KERNELS[0])
+    z = is_zero(l - pw)
+    if z is False:
+        ctx.violation('R04.2', repo.loc(f_tot, cls, KERNELS[0]), c,
+                      'total!=sum(pointwise)' + tag,
+                      'for a negative model output the total log-likelihood '
+                      'is not the sum of the pointwise values: residual per '
+                      'observation %s' % _res(l - pw), engine=eng)
+    elif z is True:
+        ctx.ok('R04.2', repo.loc(f_tot, cls, KERNELS[0]), c,
+               'total = sum of pointwise values also for negative model '
+               'outputs', engine=eng)
+    if not (isinstance(se, (tuple, Tup)) and len(se) == 2):
+        return
+    score, sens = se
+    c3 = '%s.%s' % (cls, KERNELS[2])
+    where3 = repo.loc(f_se, cls, KERNELS[2])
+    try:
+        ls = summand(score)
+    except Unsupported:
+        return
+    z = is_zero(ls - pw)
+    if z is False:
+        ctx.violation('R04.2', where3, c3, 'score!=total' + tag,
+                      'for a negative model output the score returned by '
+                      'the sensitivities kernel differs from the '
+                      'log-likelihood: residual per observation %s'
+                      % _res(ls - pw), engine=eng)
+    elif z is True:
+        ctx.ok('R04.2', where3, c3, 'score = log-likelihood also for '
+               'negative model outputs', engine=eng)
+    if not isinstance(sens, (tuple, Tup)) or len(sens) != 1 + len(params):
+        return
+    want = [('d/d(mechanistic)', -sp.diff(pw, ybn) * SP.M)] + [
+        ('d/d(parameters[%d])' % i, sp.diff(pw, s_))
+        for i, s_ in enumerate(params)]
+    for (label, w), got in zip(want, sens):
+        try:
+            g = summand(got)
+        except Unsupported:
+            continue
+        z = is_zero(g - w)
+        if z is False:
+            ctx.violation('R04.4', where3, c3, 'gradient ' + label + tag,
+                          'for a negative model output the sensitivity '
+                          'block %s is not the derivative of the '
+                          'log-likelihood: residual per observation %s'
+                          % (label, _res(g - w)), engine=eng)
+        elif z is True:
+            ctx.ok('R04.4', where3, c3, '%s equals the derivative also for '
+                   'negative model outputs' % label, engine=eng)
 
 
 # -- guards -------------------------------------------------------------------
